@@ -43,7 +43,7 @@ def b_plane(ch):
     mn = ch.choose('mn', ['px', 'py', 'pz', 'p'], free=True)
     if mn != 'p':
         return card_state(mn, [ch.choose('D', [1.5, -2.0, 0.0, 0.5], free=True)])
-    n = [ch.choose('n%d' % i, [1.0, 0.0, -1.0, 0.5], free=True) for i in range(3)]
+    n = [ch.choose('n%d' % i, [1.0, 0.0, -1.0, 0.5, 1e-5], free=True) for i in range(3)]
     if not any(n):
         ch.reject()
     return card_state('p', n + [ch.choose('D', [1.5, -2.0, 0.0, 0.5], free=True)])
